@@ -309,7 +309,537 @@ def main_c14(tier, seed):
     return run.finish()
 
 
+# ================================================================================================ C13
+from atsim.potentials.config import FilteredConfigParser      # noqa: E402
+from lib import formats                                        # noqa: E402
+
+SPL = {1: "Al", 2: "Cu", 3: "Fe", 9: "Zz"}
+V_TARGETS = {False: ["LAMMPS", "GULP", "DL_POLY", "setfl", "DL_POLY_EAM", "excel_eam", "excel"], True: ["setfl_fs", "DL_POLY_EAM_fs", "excel_eam_fs"]}
+
+
+def v_entry(e, lst, fs):
+    sp = [SPL[x] for x in e["sp"]]
+    if lst == "pair":
+        key = "%s-%s" % tuple(sp)
+    elif lst == "dens" and fs:
+        key = "%s->%s" % tuple(sp)
+    else:
+        key = sp[0]
+    return "%s : >=0 as.polynomial %d 1" % (key, e["id"])
+
+
+def v_render(doc, target):
+    out = ["[Tabulation]", "target : %s" % target, "nr : 8", "cutoff : 3.5", "nrho : 4", "cutoff_rho : 3.0", ""]
+    out += ["[Pair]"] + [v_entry(e, "pair", doc["fs"]) for e in doc["pair"]] + [""]
+    out += ["[EAM-Embed]"] + [v_entry(e, "embed", doc["fs"]) for e in doc["embed"]] + [""]
+    out += ["[EAM-Density]"] + [v_entry(e, "dens", doc["fs"]) for e in doc["dens"]] + [""]
+    return "\n".join(out) + "\n"
+
+
+def v_outcome(fn, binary):
+    try:
+        data = fn()
+        if binary:
+            wb = formats.parse_xlsx(data)
+            data = json.dumps({k: v["cols"] for k, v in wb.items()}, sort_keys=True, default=str)
+        return ("ok", data)
+    except ConfigurationException as e:
+        return ("config", str(e)[:160])
+    except Exception as e:
+        return ("internal", "%s: %s" % (type(e).__name__, str(e)[:160]))
+
+
+def v_tabulate(text, binary, view=None):
+    def run():
+        cp = ConfigParser(io.StringIO(text))
+        if view is not None:
+            labels = [SPL[x] for x in view["S"]]
+            cp = FilteredConfigParser(cp, include=labels) if view["mode"] == "include" else FilteredConfigParser(cp, exclude=labels)
+        tab = Configuration().read_from_parser(cp)
+        out = io.BytesIO() if binary else io.StringIO()
+        tab.write(out)
+        return out.getvalue()
+    return v_outcome(run, binary)
+
+
+def v_cli(text, binary, view, workdir):
+    inp, outp = os.path.join(workdir, "in.ini"), os.path.join(workdir, "out.dat")
+    with open(inp, "w") as f:
+        f.write(text)
+    if os.path.exists(outp):
+        os.remove(outp)
+    args = [inp, outp]
+    if view is not None:
+        args += ["--include-species" if view["mode"] == "include" else "--exclude-species"] + [SPL[x] for x in view["S"]]
+    try:
+        status, so, se = run_cli(args)
+    except Exception as e:
+        return ("internal", "%s: %s" % (type(e).__name__, str(e)[:160]))
+    if status == 0:
+        return v_outcome(lambda: open(outp, "rb" if binary else "r").read(), binary)
+    if status == 2 and "configuration error" in se:
+        return ("config", se.strip().splitlines()[-1][:160])
+    return ("internal", "exit status %s: %s" % (status, se.strip().splitlines()[-1][:160] if se.strip() else ""))
+
+
+_VDOCS, _VCASES = [], []
+
+
+def _view_one(idx):
+    case = _VCASES[idx]
+    doc = _VDOCS[case["doc"] - 1]
+    view = case["view"]
+    out = dict(idx=idx, bad=[], n=0)
+    d = tempfile.mkdtemp(prefix="verif-view-")
+    try:
+        for target in V_TARGETS[doc["fs"]]:
+            binary = target.startswith("excel")
+            base = v_render(doc, target)
+            hand = v_render(case["filtered"], target)
+            want = v_tabulate(hand, binary)
+            for route in ("cli", "api"):
+                got = v_cli(base, binary, view, d) if route == "cli" else v_tabulate(base, binary, view)
+                out["n"] += 1
+                empty = len(view["S"]) == 0
+                if got[0] == "internal" and want[0] != "internal":
+                    out["bad"].append(("internal-exception", route, target, "%s %s: %s" % (view["mode"], [SPL[x] for x in view["S"]], got[1]), empty))
+                elif got[0] != want[0] or (got[0] == "ok" and got[1] != want[1]):
+                    out["bad"].append(("differs-from-hand-deleted", route, target, "%s %s on target %s: %s, the hand-deleted file gives %s" % (
+                        view["mode"], [SPL[x] for x in view["S"]], target, got[0] if got[0] != "ok" else "a different table", want[0]), empty))
+    except Exception:
+        import traceback
+        out["machinery"] = traceback.format_exc()[-1500:]
+    finally:
+        shutil.rmtree(d, ignore_errors=True)
+    return out
+
+
+def _sp_tuple(p, fs, lst):
+    s = p.species
+    if lst == "pair":
+        return [s.species_a, s.species_b]
+    if lst == "dens" and fs:
+        return [s.from_species, s.to_species]
+    return [s]
+
+
+def _history_job(job):
+    """all histories of <= 3 events on ONE parsed file: creates of views (from a pool of 4) and reads of their lists"""
+    di, pool, seed = job
+    doc = _VDOCS[di]
+    by = {json.dumps(c["view"], sort_keys=True): c for c in _VCASES if c["doc"] == di + 1}
+    import itertools
+    text = v_render(doc, "setfl_fs" if doc["fs"] else "setfl")
+    events = [("create", vid, pv) for vid in (1, 2) for pv in range(len(pool))] + [("read", vid, l) for vid in (1, 2) for l in ("pair", "embed", "dens")]
+    bad, n = [], 0
+    for L in (2, 3):
+        for hist in itertools.product(events, repeat=L):
+            if hist[0][0] != "create" or not any(e[0] == "read" for e in hist):
+                continue
+            cp = ConfigParser(io.StringIO(text))
+            views, filt = {}, {}
+            ok = True
+            for ev in hist:
+                if ev[0] == "create":
+                    v = pool[ev[2]]
+                    labels = [SPL[x] for x in v["S"]]
+                    views[ev[1]] = FilteredConfigParser(cp, include=labels) if v["mode"] == "include" else FilteredConfigParser(cp, exclude=labels)
+                    filt[ev[1]] = v
+                else:
+                    if ev[1] not in views:
+                        ok = False
+                        break
+                    lst = ev[2]
+                    attr = {"pair": "pair", "embed": "eam_embed", "dens": "eam_density_fs" if doc["fs"] else "eam_density"}[lst]
+                    got = [_sp_tuple(p, doc["fs"], lst) for p in getattr(views[ev[1]], attr)]
+                    want = [[SPL[x] for x in e["sp"]] for e in by[json.dumps(filt[ev[1]], sort_keys=True)]["filtered"][lst]]
+                    n += 1
+                    if got != want and len(bad) < 5:
+                        bad.append(("view-not-independent", "history %s: reading %s of view %d (%s %s) gives %s, expected %s" % (
+                            [(e[0], e[1], (pool[e[2]]["mode"], [SPL[x] for x in pool[e[2]]["S"]]) if e[0] == "create" else e[2]) for e in hist], lst, ev[1],
+                            filt[ev[1]]["mode"], [SPL[x] for x in filt[ev[1]]["S"]], got, want)))
+            if not ok:
+                continue
+    return dict(bad=bad, n=n)
+
+
+def main_c13(tier, seed):
+    global _VDOCS, _VCASES
+    import multiprocessing as mp
+    run = Run("C13", tier, seed)
+    run.assumptions = ["the hand-deleted file keeps its (possibly empty) section headers", "ADP dipole/quadrupole sections are not named by the statement and not filtered: not asserted",
+                       "Excel outputs compared at cell level (container timestamps differ between writes)"]
+    try:
+        res = tlc.run("Views", "Views_fixed.cfg", env={"EMIT": "1"}, coverage=True, keep=True, timeout=1200)
+        try:
+            if res.violated:
+                run.machinery("TLC: %s violated\n%s" % (res.violated, res.stdout[-1500:]))
+            else:
+                run.add_tlc("Views_fixed", res)
+                _VDOCS = tlc.read_ndjson(os.path.join(res.outdir, "docs.ndjson"))
+                _VCASES = tlc.read_ndjson(os.path.join(res.outdir, "cases.ndjson"))
+        finally:
+            tlc.cleanup(res)
+        r2 = tlc.run("Views", "Views_shared.cfg", timeout=600)
+        run.notes["unrepaired_model_violates"] = r2.violated
+        if r2.violated != "ReadIsFilter":
+            run.machinery("anti-vacuity: the shared-slot model should violate ReadIsFilter, TLC says %r" % r2.violated)
+        if not run.machinery_errors:
+            rnd = random.Random(seed)
+            pools = []
+            for di in range(len(_VDOCS)):
+                vs = [c["view"] for c in _VCASES if c["doc"] == di + 1]
+                for rep in range(2 if tier == "quick" else 8):
+                    pools.append((di, rnd.sample(vs, 4), seed))
+            with mp.Pool(min(16, os.cpu_count() or 1)) as pool:
+                results = pool.map(_view_one, range(len(_VCASES)), chunksize=1)
+                hres = pool.map(_history_job, pools, chunksize=1)
+            for r in results:
+                case = _VCASES[r["idx"]]
+                if r.get("machinery"):
+                    run.machinery("case %d: %s" % (r["idx"], r["machinery"]))
+                    continue
+                run.evaluations += r["n"]
+                run.replayed += 1
+                if 0 < len(case["view"]["S"]) < 4:
+                    run.distinct(json.dumps([case["doc"], case["view"]], sort_keys=True))
+                if len(run.samples) < 3 and r["idx"] % 17 == 3:
+                    run.sample(dict(file=v_render(_VDOCS[case["doc"] - 1], "setfl"), view=dict(mode=case["view"]["mode"], species=[SPL[x] for x in case["view"]["S"]]),
+                                    hand_deleted=v_render(case["filtered"], "setfl")))
+                seen = set()
+                for clause, route, target, msg, empty in r["bad"]:
+                    sig = dict(engine="inidoc", clause=clause, route=route, empty_set=empty, mode=case["view"]["mode"])
+                    k = json.dumps(sig, sort_keys=True)
+                    if k in seen:
+                        continue
+                    seen.add(k)
+                    run.violation(sig, "[%s] %s: %s" % (clause, route, msg), dict(case=case, target=target))
+            for r in hres:
+                run.evaluations += r["n"]
+                run.replayed += r["n"]
+                for clause, msg in r["bad"][:1]:
+                    run.violation(dict(engine="inidoc", clause=clause, route="api"), "[%s] %s" % (clause, msg), dict(msg=msg))
+            run.rule = "cases = 2 files (EAM, Finnis-Sinclair) x 32 views (include/exclude x subsets of 3 species + an unknown label) x 7 / 3 targets x {CLI, API}; histories = all sequences of <= 3 create/read events over 2 views from seeded pools of 4 filters; non-trivial = proper non-empty species set"
+    except tlc.TLCError as e:
+        run.machinery(str(e))
+    return run.finish()
+
+
+# ================================================================================================ C15
+LIT = {"L9": "9", "L3": "3.0", "L03": "0.3", "Ly": "0.0 1.0 4.0 9.0 16.0 144.0", "Lextra": "77"}
+# position -> (section, key, value template)
+VPOS = {1: ("Tabulation", "nr", "{}"), 2: ("Tabulation", "cutoff_rho", "{}"),
+        3: ("Pair", "Al-Cu", "as.buck 1000.0 {} 32.0"), 4: ("Pair", "Cu-Cu", "sum(as.polynomial 1 2, f {}, tf)"),
+        5: ("Potential-Form", "f(r,a)", "a*r + {}"), 6: ("Species", "Al.lattice_constant", "{}"),
+        7: ("Table-Form:tf", "y", "{}"), 8: ("EAM-Embed", "Al", "as.polynomial {} 1"), 9: ("EAM-Density", "Al", "as.polynomial {} 1")}
+VPOS_LIT = {1: "L9", 2: "L3", 3: "L03", 4: "L03", 5: "L03", 6: "L3", 7: "Ly", 8: "L9", 9: "L03"}
+VKEYLIKE = {1: "A-B", 2: "x", 3: "nr", 4: "cutoff", 5: "target", 6: "y", 7: "dr", 8: "drho", 9: "interpolation"}
+VCONTEXT = [("Tabulation", ["target : {target}", "nrho : 5"]), ("Table-Form:tf", ["x : 0.0 1.0 2.0 3.0 4.0 12.0"]),
+            ("Potential-Form", []), ("Pair", []), ("Species", []), ("EAM-Embed", ["Cu : as.polynomial 2 1"]), ("EAM-Density", ["Cu : as.polynomial 1 1"])]
+
+
+def vars_partner(p, P):
+    c = [q for q in sorted(VPOS) if q != p and VPOS_LIT[q] == VPOS_LIT[p] and VPOS[q][0] != VPOS[p][0] and VPOS[q][2] == "{}"]
+    return c[0] if c else 0
+
+
+def vars_render(case, target):
+    """(templated text, substituted text)"""
+    P, scheme, extra = set(case["P"]), case["scheme"], case["extra"]
+    variables = {}
+    hole = {}
+    for p in sorted(VPOS):
+        lit = LIT[VPOS_LIT[p]]
+        if p not in P:
+            hole[p] = lit
+            continue
+        q = vars_partner(p, P)
+        if scheme == "secref" and q and q not in P:
+            hole[p] = "${%s:%s}" % (VPOS[q][0], VPOS[q][1])
+            continue
+        name = {"plain": "v%d" % p, "secref": "v%d" % p, "keylike": VKEYLIKE[p], "shared": VPOS_LIT[p]}[scheme]
+        variables[name] = lit
+        hole[p] = "${%s}" % name
+    for e in extra:
+        variables.setdefault(e, LIT["Lextra"])
+
+    def body(holes):
+        out = []
+        for sec, ctx in VCONTEXT:
+            out.append("[%s]" % sec)
+            out += [c.format(target=target) for c in ctx]
+            for p in sorted(VPOS):
+                if VPOS[p][0] == sec:
+                    out.append("%s : %s" % (VPOS[p][1], VPOS[p][2].format(holes[p])))
+            out.append("")
+        return "\n".join(out) + "\n"
+    templ = body(hole)
+    if variables:
+        templ = "[Variables]\n" + "\n".join("%s : %s" % kv for kv in variables.items()) + "\n\n" + templ
+    subst = body({p: LIT[VPOS_LIT[p]] for p in VPOS})
+    return templ, subst
+
+
+_XCASES = []
+
+
+def _vars_one(idx):
+    case = _XCASES[idx]
+    out = dict(idx=idx, bad=[], n=0)
+    d = tempfile.mkdtemp(prefix="verif-vars-")
+    try:
+        for target in ("LAMMPS", "setfl", "GULP", "DL_POLY_EAM")[: 4 if idx % 3 == 0 else 2]:
+            templ, subst = vars_render(case, target)
+            want = tabulate_text(subst)
+            for route in ("api", "cli"):
+                got = tabulate_text(templ) if route == "api" else tabulate_cli(templ, [], d)
+                out["n"] += 1
+                if got[0] != want[0] or (got[0] == "ok" and got[1] != want[1]):
+                    clause = "internal-exception" if got[0] == "internal" else "differs-from-substituted"
+                    out["bad"].append((clause, route, target, "lifted %s (%s), extra variables %s, target %s: %s; the substituted file gives %s" % (
+                        case["P"], case["scheme"], case["extra"], target, got[0] if got[0] == "ok" else "%s %s" % got, want[0]), templ))
+    except Exception:
+        import traceback
+        out["machinery"] = traceback.format_exc()[-1500:]
+    finally:
+        shutil.rmtree(d, ignore_errors=True)
+    return out
+
+
+def main_c15(tier, seed):
+    global _XCASES
+    import multiprocessing as mp
+    run = Run("C15", tier, seed)
+    run.assumptions = ["a variable is never given the name of an option of the section that refers to it (configparser resolves ${name} in the referring section first)"]
+    try:
+        cfg = "Vars_quick" if tier == "quick" else "Vars_thorough"
+        res = tlc.run("Vars", cfg + ".cfg", env={"EMIT": "1"}, coverage=True, keep=True, timeout=2400)
+        try:
+            if res.violated:
+                run.machinery("TLC: %s violated\n%s" % (res.violated, res.stdout[-1500:]))
+            else:
+                run.add_tlc(cfg, res)
+                cases = tlc.read_ndjson(os.path.join(res.outdir, "cases.ndjson"))
+        finally:
+            tlc.cleanup(res)
+        r2 = tlc.run("Vars", "Vars_leak.cfg", timeout=600)
+        run.notes["unrepaired_model_violates"] = r2.violated
+        if r2.violated != "VariablesInert":
+            run.machinery("anti-vacuity: the default-section model should violate VariablesInert, TLC says %r" % r2.violated)
+        if not run.machinery_errors:
+            rnd = random.Random(seed)
+            jobs = list(range(len(cases)))
+            cap = 2500 if tier == "quick" else 60000
+            if len(jobs) > cap:
+                small = [i for i in jobs if len(cases[i]["P"]) + len(cases[i]["extra"]) <= 1]
+                rest = [i for i in jobs if i not in set(small)]
+                jobs = small + rnd.sample(rest, cap - len(small))
+                run.exhaustive = False
+                run.notes["replay_sampled"] = "%d of %d emitted cases replayed (all with <= 1 variable, seeded sample of the rest)" % (len(jobs), len(cases))
+            _XCASES = cases
+            with mp.Pool(min(16, os.cpu_count() or 1)) as pool:
+                results = pool.map(_vars_one, jobs, chunksize=8)
+            for r in results:
+                case = cases[r["idx"]]
+                if r.get("machinery"):
+                    run.machinery("case %d: %s" % (r["idx"], r["machinery"]))
+                    continue
+                run.evaluations += r["n"]
+                run.replayed += 1
+                if case["P"] or case["extra"]:
+                    run.distinct(json.dumps(case, sort_keys=True))
+                if len(run.samples) < 3 and len(case["P"]) >= 2 and r["idx"] % 101 == 7:
+                    run.sample(dict(lifted_positions=case["P"], scheme=case["scheme"], unreferenced=case["extra"], templated_file=vars_render(case, "setfl")[0]))
+                for clause, route, target, msg, templ in r["bad"][:1]:
+                    run.violation(dict(engine="inidoc", clause=clause, route=route, has_variables=bool(case["P"] or case["extra"])),
+                                  "[%s] %s: %s" % (clause, route, msg), dict(case=case, templated=templ))
+            run.rule = "cases = subsets of 9 literal positions lifted into [Variables] x 4 naming schemes (incl. names of options of other sections, shared variables, ${SECTION:KEY}) x <= 2 unreferenced variables x targets x {API, CLI}; non-trivial = at least one variable"
+    except tlc.TLCError as e:
+        run.machinery(str(e))
+    return run.finish()
+
+
+# ================================================================================================ C20
+D_TAB = {"pair": "LAMMPS", "eam": "setfl", "fs": "setfl_fs", "adp": "eam_adp"}
+
+
+def dup_base(fam):
+    """base model as an ordered list of (section, [(key, value)])"""
+    secs = [("Tabulation", [("target", D_TAB[fam]), ("nr", "6"), ("cutoff", "2.5"), ("nrho", "4"), ("cutoff_rho", "3.0")]),
+            ("Potential-Form", [("f(r,a)", "a*r + 1"), ("g(r)", "2*r")]),
+            ("Table-Form:tf", [("x", "0.0 1.0 2.0 3.0 4.0"), ("y", "0.0 1.0 4.0 9.0 16.0")]),
+            ("Pair", [("Al-Al", "as.polynomial 1 2"), ("Fe-Al", "as.polynomial 2 2"), ("Al-Cu", "sum(f 2.0, tf)"), ("Cu-Cu", "as.polynomial 3 1"),
+                      ("Cu-Fe", "as.polynomial 4 2"), ("Fe-Fe", "as.polynomial 5 2")])]
+    if fam != "pair":
+        secs.append(("EAM-Embed", [("Al", "as.polynomial 5 1"), ("Cu", "as.polynomial 6 1"), ("Fe", "as.polynomial 4 1")]))
+        if fam == "fs":
+            secs.append(("EAM-Density", [("%s->%s" % (a, b), "as.polynomial %d 1" % (7 + 3 * i + j)) for i, a in enumerate(("Al", "Cu", "Fe")) for j, b in enumerate(("Al", "Cu", "Fe"))]))
+        else:
+            secs.append(("EAM-Density", [("Al", "as.polynomial 7 1"), ("Cu", "as.polynomial 8 1"), ("Fe", "as.polynomial 9 1")]))
+    if fam == "adp":
+        secs.append(("EAM-ADP-Dipole", [("Al-Al", "as.polynomial 11 1"), ("Al-Cu", "as.polynomial 12 1"), ("Fe-Al", "as.polynomial 17 1"), ("Cu-Cu", "as.polynomial 13 1")]))
+        secs.append(("EAM-ADP-Quadrupole", [("Al-Al", "as.polynomial 14 1"), ("Al-Cu", "as.polynomial 15 1"), ("Fe-Al", "as.polynomial 18 1"), ("Cu-Cu", "as.polynomial 16 1")]))
+    return secs
+
+
+def dup_variants(opname, fam):
+    """(original key, spelling of the second definition) for every entry of the section the operator can duplicate"""
+    fams, sec, orig, spellings, val2 = D_OPS[opname]
+    if orig is None:
+        return [(None, sp) for sp in spellings]
+    keys = [k for n, items in dup_base(fam) if n == sec for k, _ in items]
+    out = []
+    for k in keys:
+        if "->" in k:
+            a, b = k.split("->")
+            forms = {"same": [k], "ws": ["%s -> %s" % (a, b), "%s-> %s" % (a, b), "%s ->%s" % (a, b)]}
+        elif "-" in k and sec != "Potential-Form":
+            a, b = k.split("-")
+            forms = {"same": [k], "ws": ["%s - %s" % (a, b), "%s -%s" % (a, b), "%s\t-%s" % (a, b)], "rev": ["%s-%s" % (b, a)] if a != b else [],
+                     "revws": ["%s - %s" % (b, a), "%s- %s" % (b, a)] if a != b else []}
+        elif sec == "Potential-Form":
+            return [(orig, sp) for sp in spellings]
+        else:
+            forms = {"same": [k], "ws": [k[0] + " " + k[1:]]}
+        kind = {"pair-same": "same", "pair-reversed": "rev", "pair-ws": "ws", "pair-reversed-ws": "revws", "dipole-reversed": "rev", "dipole-ws": "ws",
+                "embed-same": "same", "embed-ws": "ws", "dens-same": "same", "dens-ws": "ws", "fsdens-same": "same", "fsdens-ws": "ws"}[opname]
+        out += [(k, sp) for sp in forms.get(kind, [])]
+    return out
+
+
+# operator -> (families, section, original key, the second spelling(s), second value)
+D_OPS = {
+    "pair-same": (["pair", "eam"], "Pair", "Al-Cu", ["Al-Cu"], "as.polynomial 99 1"),
+    "pair-reversed": (["pair", "fs"], "Pair", "Al-Cu", ["Cu-Al"], "as.polynomial 99 1"),
+    "pair-ws": (["pair", "eam"], "Pair", "Al-Cu", ["Al - Cu", "Al -Cu", "Al\t-Cu"], "as.polynomial 99 1"),
+    "pair-reversed-ws": (["pair"], "Pair", "Al-Cu", ["Cu - Al", "Cu- Al"], "as.polynomial 99 1"),
+    "dipole-reversed": (["adp"], "EAM-ADP-Dipole", "Al-Cu", ["Cu-Al"], "as.polynomial 99 1"),
+    "dipole-ws": (["adp"], "EAM-ADP-Quadrupole", "Al-Cu", ["Al - Cu"], "as.polynomial 99 1"),
+    "embed-same": (["eam", "fs"], "EAM-Embed", "Cu", ["Cu"], "as.polynomial 99 1"),
+    "embed-ws": (["eam", "fs"], "EAM-Embed", "Cu", ["C u"], "as.polynomial 99 1"),
+    "dens-same": (["eam", "adp"], "EAM-Density", "Al", ["Al"], "as.polynomial 99 1"),
+    "dens-ws": (["eam"], "EAM-Density", "Al", ["A l"], "as.polynomial 99 1"),
+    "fsdens-same": (["fs"], "EAM-Density", "Al->Cu", ["Al->Cu"], "as.polynomial 99 1"),
+    "fsdens-ws": (["fs"], "EAM-Density", "Al->Cu", ["Al -> Cu", "Al-> Cu", "Al ->Cu"], "as.polynomial 99 1"),
+    "form-same": (["pair"], "Potential-Form", "f(r,a)", ["f(r,a)"], "a*r + 99"),
+    "form-ws": (["pair", "eam"], "Potential-Form", "f(r,a)", ["f(r, a)", "f (r,a)", "f( r,a )"], "a*r + 99"),
+    "form-other-arity": (["pair"], "Potential-Form", "f(r,a)", ["f(r,a,b)", "f(r,b)", "f(r)"], "r + 99"),
+    "table-same": (["pair"], "Table-Form:tf", None, ["Table-Form:tf"], None),
+    "table-ws": (["pair", "eam"], "Table-Form:tf", None, ["Table-Form: tf", "Table-Form:tf ", "Table-Form:  tf  "], None),
+    "table-vs-formula": (["pair", "eam"], "Table-Form:tf", None, ["Table-Form:f", "Table-Form:g"], None),
+    "table-vs-builtin": (["pair"], "Table-Form:tf", None, ["Table-Form:as.buck", "Table-Form:as.zero", "Table-Form:as.polynomial"], None),
+    "section-twice": (["pair", "eam"], "Pair", None, ["Pair"], None),
+}
+
+
+def dup_render(fam, opname, spelling, position, orig=None):
+    fams, sec, orig0, _, val2 = D_OPS[opname]
+    orig = orig if orig is not None else orig0
+    secs = [(n, list(items)) for n, items in dup_base(fam)]
+    if orig is not None:
+        for n, items in secs:
+            if n == sec:
+                i = [k for k, _ in items].index(orig)
+                at = i + 1 if position == "adjacent" else (0 if position == "before" else len(items))
+                items.insert(at, (spelling, val2))
+    else:
+        if opname == "section-twice":
+            new = ("Pair", [("Fe-Fe", "as.polynomial 99 1")])
+        else:
+            new = (spelling, [("x", "0.0 1.0 2.0 3.0 4.0"), ("y", "0.0 2.0 8.0 18.0 32.0")])
+        idx = [n for n, _ in secs].index(sec)
+        at = idx + 1 if position == "adjacent" else (0 if position == "before" else len(secs))
+        secs.insert(at, new)
+    out = []
+    for n, items in secs:
+        out.append("[%s]" % n)
+        out += ["%s : %s" % kv if n != "Potential-Form" else "%s = %s" % kv for kv in items]
+        out.append("")
+    return "\n".join(out) + "\n"
+
+
+def main_c20(tier, seed):
+    run = Run("C20", tier, seed)
+    run.assumptions = ["whitespace variants are spellings with blanks or tabs inside the key / section name (leading whitespace starts a continuation line in the INI syntax and is not a key spelling)"]
+    try:
+        res = tlc.run("Dups", "Dups_fixed.cfg", env={"EMIT": "1"}, coverage=True, keep=True, timeout=600)
+        try:
+            if res.violated:
+                run.machinery("TLC: %s violated\n%s" % (res.violated, res.stdout[-1500:]))
+            else:
+                run.add_tlc("Dups_fixed", res)
+                ops = tlc.read_ndjson(os.path.join(res.outdir, "cases.ndjson"))
+        finally:
+            tlc.cleanup(res)
+        r2 = tlc.run("Dups", "Dups_code.cfg", timeout=600)
+        run.notes["unrepaired_model_violates"] = r2.violated
+        if r2.violated != "NoDuplicateSurvives":
+            run.machinery("anti-vacuity: the unrepaired reader model should violate NoDuplicateSurvives, TLC says %r" % r2.violated)
+        # IniDoc's reader (abstract files with duplicated raw / normalised keys and sections)
+        res3 = tlc.run("IniDoc", "IniDoc_dups.cfg", env={"EMIT": "1"}, coverage=True, keep=True, timeout=900)
+        try:
+            if res3.violated:
+                run.machinery("TLC: %s violated on IniDoc_dups\n%s" % (res3.violated, res3.stdout[-1500:]))
+            else:
+                run.add_tlc("IniDoc_dups", res3)
+                dupfiles = [c for c in tlc.read_ndjson(os.path.join(res3.outdir, "cases.ndjson")) if c["readRejects"]]
+        finally:
+            tlc.cleanup(res3)
+        if not run.machinery_errors:
+            d = tempfile.mkdtemp(prefix="verif-dups-")
+            try:
+                # the well-formed base models must be accepted (so that a rejection is due to the duplicate)
+                for fam in D_TAB:
+                    text = dup_render(fam, "pair-same", "Al-Cu", "adjacent").replace("Al-Cu : as.polynomial 99 1\n", "")
+                    got = tabulate_text(text)
+                    run.evaluations += 1
+                    if got[0] != "ok":
+                        run.machinery("base model %s is not accepted: %s" % (fam, got))
+                for o in ops:
+                    fams, sec, orig, spellings, val2 = D_OPS[o["op"]]
+                    for fam in fams:
+                        for orig_k, spelling in dup_variants(o["op"], fam):
+                            for position in ("adjacent", "end", "before"):
+                                text = dup_render(fam, o["op"], spelling, position, orig_k)
+                                for route in ("api", "cli"):
+                                    got = tabulate_text(text) if route == "api" else tabulate_cli(text, [], d)
+                                    run.evaluations += 1
+                                    run.replayed += 1
+                                    run.distinct(json.dumps([o["op"], fam, orig_k, spelling, position]))
+                                    if len(run.samples) < 3 and position == "end" and route == "api" and o["op"] in ("pair-reversed-ws", "table-vs-formula", "fsdens-ws"):
+                                        run.sample(dict(operator=o["op"], family=fam, second_spelling=spelling, position=position, file=text, outcome=got[0]))
+                                    if got[0] != "config":
+                                        clause = "duplicate-accepted" if got[0] == "ok" else "internal-exception"
+                                        run.violation(dict(engine="inidoc", clause=clause, op=o["op"], route=route),
+                                                      "[%s] %s: second definition %r (%s, %s model): %s" % (clause, o["op"], spelling, position, fam,
+                                                                                                        "silently accepted" if got[0] == "ok" else got[1]),
+                                                      dict(op=o, family=fam, spelling=spelling, position=position, file=text))
+                global TH
+                for c in dupfiles:
+                    for th in THEMES:
+                        TH = th
+                        text = render_file(c["file"])
+                        got = tabulate_text(text)
+                        run.evaluations += 1
+                        run.replayed += 1
+                        if got[0] != "config":
+                            run.violation(dict(engine="inidoc", clause="duplicate-accepted" if got[0] == "ok" else "internal-exception", op="abstract-" + th.name, route="api"),
+                                          "[duplicate] file with a key / section defined twice is not refused (%s): %s" % (got[0], text[:300]), dict(case=c, file=text))
+            finally:
+                shutil.rmtree(d, ignore_errors=True)
+            run.rule = "cases = 20 duplication operators (TLC) x families x spellings of the second definition x 3 positions x {API, CLI}; non-trivial = every case (each holds a genuine second definition with a different value); distinct by (operator, family, spelling, position)"
+    except tlc.TLCError as e:
+        run.machinery(str(e))
+    return run.finish()
+
+
 def main(prop, tier, seed):
+    if prop == "C20":
+        return main_c20(tier, seed)
+    if prop == "C15":
+        return main_c15(tier, seed)
     if prop == "C14":
         return main_c14(tier, seed)
+    if prop == "C13":
+        return main_c13(tier, seed)
     raise SystemExit(2)
